@@ -213,13 +213,21 @@ CANARIES = [
     ("moveaxis-bwd-same-direction", "c02_struct", "tensor_manip/transpose_like/ops.py", "        return np.moveaxis(grad, self.destination, self.source)", "        return np.moveaxis(grad, self.source, self.destination)", r"C02\.struct\.MoveAxis.*\.(vjp|grad_shape)"),
     ("swapaxes-bwd-order-harmless", "c02_struct", "tensor_manip/transpose_like/ops.py", "        return np.swapaxes(grad, self.axis2, self.axis1)", "        return np.swapaxes(grad, self.axis1, self.axis2)", None),
     ("swapaxes-bwd-wrong-axis", "c02_struct", "tensor_manip/transpose_like/ops.py", "        return np.swapaxes(grad, self.axis2, self.axis1)", "        return np.swapaxes(grad, self.axis2, 0)", r"C02\.struct\.SwapAxes"),
-    ("roll-bwd-tuple-not-negated", "c02_struct", "tensor_manip/transpose_like/ops.py", "            else tuple(-i for i in self.shift)", "            else tuple(i for i in self.shift)", r"C02\.struct\.Roll\[.*shift=\(s0,s1\).*\.vjp"),
-    ("roll-bwd-scalar-not-negated", "c02_struct", "tensor_manip/transpose_like/ops.py", "            -self.shift\n", "            self.shift\n", r"C02\.struct\.Roll\[.*shift=s0.*\.vjp"),
-    ("roll-bwd-off-by-one", "c02_struct", "tensor_manip/transpose_like/ops.py", "            -self.shift\n", "            1 - self.shift\n", r"C02\.struct\.Roll\[.*shift=s0.*\.vjp"),
+    ("roll-bwd-tuple-not-negated", "c02_struct", "tensor_manip/transpose_like/ops.py", "            else tuple(-int(i) for i in self.shift)", "            else tuple(int(i) for i in self.shift)", r"C02\.struct\.Roll\[.*shift=\(s0,s1\).*\.vjp"),
+    ("roll-bwd-scalar-not-negated", "c02_struct", "tensor_manip/transpose_like/ops.py", "            -int(self.shift)\n", "            int(self.shift)\n", r"C02\.struct\.Roll\[.*shift=s0.*\.vjp"),
+    ("roll-bwd-off-by-one", "c02_struct", "tensor_manip/transpose_like/ops.py", "            -int(self.shift)\n", "            1 - int(self.shift)\n", r"C02\.struct\.Roll\[.*shift=s0.*\.vjp"),
     ("preserves-order-reversed-shape", "c02_struct", "tensor_manip/array_shape/ops.py", "        return np.reshape(grad, a.shape)", "        return np.reshape(grad, a.shape[::-1])", r"C02\.struct\..*grad_shape_is_operand_shape"),
     ("preserves-order-transposes", "c02_struct", "tensor_manip/array_shape/ops.py", "        return np.reshape(grad, a.shape)", "        return np.reshape(grad.T, a.shape)", r"C02\.struct\."),
     ("broadcast-to-bwd-folds-leading-axes", "c02_struct", "tensor_manip/array_shape/ops.py", "            )\n        return grad\n", "            )\n        if grad.ndim > self.variables[0].ndim:\n            grad = grad.reshape((-1,) + self.variables[0].shape).sum(axis=0)\n        return grad\n", r"C02\.struct\.BroadcastTo.*backward_returns_incoming_gradient"),
-    ("squeeze-ignores-axis", "c02_struct", "tensor_manip/array_shape/ops.py", "        return np.squeeze(a.data, axis=axis)", "        return np.squeeze(a.data)", None),  # changes the forward (a C03 matter); the VJP of that forward is still exact
+    ("squeeze-ignores-axis", "c02_struct", "tensor_manip/array_shape/ops.py", "        return np.squeeze(a.data, axis=axis)", "        return np.squeeze(a.data)", r"C03\.struct\.Squeeze.*forward_shape_is_numpys"),  # the VJP of that forward is still exact: only the C03 obligations turn red
+    ("concat-bwd-slice-short", "c02_struct", "tensor_manip/tensor_joining/ops.py", "                    else slice(self.indices[index], self.indices[index + 1])", "                    else slice(self.indices[index], self.indices[index + 1] - 1)", r"C02\.struct\.Concatenate.*grad_shape"),
+    ("concat-bwd-slice-from-zero", "c02_struct", "tensor_manip/tensor_joining/ops.py", "                    else slice(self.indices[index], self.indices[index + 1])", "                    else slice(0, self.indices[index + 1] - self.indices[index])", r"C02\.struct\.Concatenate.*index=[12]\]\.vjp"),
+    ("concat-axis-not-normalised", "c02_struct", "tensor_manip/tensor_joining/ops.py", "                self.axis = axis % out.ndim\n                self.indices", "                self.axis = axis\n                self.indices", r"C02\.struct\.Concatenate.*axis=-"),
+    ("concat-flat-bwd-from-zero", "c02_struct", "tensor_manip/tensor_joining/ops.py", "            return grad[self.indices[index] : self.indices[index + 1]].reshape(", "            return grad[: self.indices[index + 1] - self.indices[index]].reshape(", r"C02\.struct\.Concatenate.*axis=None,index=[12]\]\.vjp"),
+    ("concat-indices-drop-leading-zero", "c02_struct", "tensor_manip/tensor_joining/ops.py", "                self.indices.insert(0, 0)\n", "                self.indices.insert(0, 1)\n", r"C02\.struct\.Concatenate"),
+    ("stack-bwd-first-piece", "c02_struct", "tensor_manip/tensor_joining/ops.py", "                slice(None, None, None) if dim != self.axis else index\n", "                slice(None, None, None) if dim != self.axis else 0\n", r"C02\.struct\.Stack.*index=[12]\]\.vjp"),
+    ("stack-axis-not-normalised", "c02_struct", "tensor_manip/tensor_joining/ops.py", "            self.axis = axis % out.ndim\n\n        return out", "            self.axis = axis\n\n        return out", r"C02\.struct\.Stack.*axis=-"),
+    ("stack-forward-axis-dropped", "c02_struct", "tensor_manip/tensor_joining/ops.py", "        out = np.stack(tuple(var.data for var in input_vars), axis=axis, out=out)", "        out = np.stack(tuple(var.data for var in input_vars), out=out)", r"C0[23]\.struct\.Stack"),
     ("turn-off-noop", "c15_ctx", "_utils/lock_management.py", "    global MEM_GUARD\n    MEM_GUARD = False", "    MEM_GUARD = False", r"C15\.ctx\.turn_memory_guarding_off"),
 ]
 
